@@ -96,6 +96,29 @@ Round 4: the generator emits the SAME operation on the same object 3-4 times in 
   one entry per completed instrumented operation" check (for `temps`: exactly k init/Value entries), so a
   record() that de-duplicates consecutive identical entries is reported with a replay (C20-r4m3), also on the
   search-after-break path, which uses the same generator.
+Deepening round (hooks): coq/theories/C20/Hooks.v models Journal.record with hooks (entry appended first,
+  hooks called in registration order, a hook's exception is not caught) as `runH`; hooks are functions
+  entry -> option exn, fixed per journal.  Theorems: C20_hooks_transparent (no hook raises => runH = plain run
+  on heap/results/exception, journals contain prog_entries, every hook is called exactly once per entry of its
+  journal, in order), C20_restore_hooks (classes/current journal restored for EVERY hook behaviour),
+  C20_raising_hook_refuted ("transparent for every hook behaviour" is false for the code: under a record-first
+  wrapper a raising hook prevents the original from running) — replayed on the implementation (probe
+  `raising-hook`) and recorded as known finding raising-hook-aborts-operation with
+  proposed_fixes/C20-hook-exception-isolated.diff.  Tie: every case file now evaluates runH; about a third of
+  the journals of the main stream carry 1-2 quiet hooks (logged calls compared with calls_of j k inside Coq and,
+  in the oracle, with the journal's entries); a separate stream (quick 50 / thorough 1200 scenarios, traced run
+  only) gives one journal a hook that raises whenever an operation it really records is recorded: the model
+  predicts the last entry, which hooks were still called, that the original is not reached (the tracer
+  synthesises the aborted dispatched call from the entry: Tracer.abort_node), the exception seen by the
+  caller, and restoration.  If /repo adopts the fix, Journal.record's pinned text and Hooks.v's `record`
+  (catch the exception) must be updated together and the refuted theorem becomes a transparent one.
+  Nesting (suggestion 2) was already a theorem over the stack of patch tables: C20_restore for any table and
+  C20_transparent over tbl_of stack, unbounded depth, exception at any exit (seeded r4m1 breaks the tie).
+  Completeness of instrumentation (suggestion 3) NOT done: C20 speaks about *instrumented* operations; a
+  syntactic "mutator" table of the class bodies marks 24 unwrapped members (replace_input_with, inputs/outputs/
+  dtype/doc_string setters, Function.append/extend/remove/sort, __delitem__ of the IO lists, ...) and misses 6
+  wrapped ones (insert_after/before, sort, replace_all_uses_with, Node.prepend/append), so the theorem would
+  be an allow-list tripwire rather than content of the property.
 Modelled, not verified: purity of details_func/repr/getattr inside wrappers (exercised by (i) — and
   this is exactly where the finding below was), weakref/traceback/time, determinism of the originals,
   hooks (user callbacks), threads.
@@ -542,6 +565,10 @@ POOLS = ("value", "node", "graph", "tensor", "attr", "func", "model", "shape")
 _THROWABLE = {"ValueError": ValueError, "RuntimeError": RuntimeError, "KeyError": KeyError, "TypeError": TypeError}
 
 
+class C20HookError(RuntimeError):
+    """raised by a scenario hook whose spec says so"""
+
+
 class _Escape(Exception):
     """carries a propagating exception through the interpreter without holding the traceback"""
 
@@ -655,6 +682,27 @@ class Tracer:
         self.ids = {}
         self.keep = []
         self.stack = [{"ch": []}]
+        # record-first wrappers: operation name -> [(slot, target_attr)]
+        self.record_first = {}
+        for p in x["patched"]:
+            kinds = [st[0] for st in p["steps"]]
+            call_at = min(i for i, k in enumerate(kinds) if k in ("WCall", "WCallRet"))
+            if "WRecord" in kinds[:call_at]:
+                self.record_first.setdefault(p["op"], []).append((p["slot"], p["tattr"]))
+
+    def abort_node(self, e) -> None:
+        """A hook is about to raise while a record-first wrapper records `e`: the original will never be
+        called, so the tracer beneath will not see this dispatched call — add it to the call forest (the
+        model decides that its callee is not executed)."""
+        o = e.ref() if e.ref is not None else None
+        _, core, gcont, _, _ = _mods()
+        for slot, tattr in self.record_first.get(e.operation, []):
+            parts = slot.split(".")
+            cls = getattr({"_core": core, "_graph_containers": gcont}[parts[0]], parts[1])
+            if tattr is not None or isinstance(o, cls):
+                self.stack[-1]["ch"].append({"slot": slot, "self": 0 if tattr is not None else self.h(o),
+                                             "owner": self.h(o), "ch": [], "out": ("ok", 0), "aborted": True})
+                return
 
     def h(self, o) -> int:
         if o is None:
@@ -1112,13 +1160,24 @@ def run_scenario(scn: list, mode: str, x: dict | None = None) -> dict:
     W = World()
     journals: dict[int, object] = {}
     obs = {"results": [], "snaps": [], "restore_bad": [], "cur_bad": [], "oracle_entries": [], "escaped": None,
-           "ops": [], "errsites": {}, "pos_seq": [], "suppressed": []}
+           "ops": [], "errsites": {}, "pos_seq": [], "suppressed": [], "hook_calls": {}}
     tracer = None
     if mode == "traced":
         tracer = Tracer(x)
         tracer.install()
     look = mode == "journal" and any("look" in it for it in scn)
     active: list[int] = []
+
+    def make_hook(j, k, spec):
+        log = obs["hook_calls"].setdefault(f"{j}:{k}", [])
+
+        def hk(e):
+            log.append((e.operation, e.class_name, tracer.h(e.ref() if e.ref is not None else None) if tracer else None))
+            if spec.get("raise_on") == e.operation:
+                if tracer:
+                    tracer.abort_node(e)
+                raise C20HookError("c20 scenario hook")
+        return hk
     pos_of = {id(it): i for i, it in enumerate(_flat_ops(scn))}     # syntactic position of every op item
 
     def one_op(it):
@@ -1186,6 +1245,8 @@ def run_scenario(scn: list, mode: str, x: dict | None = None) -> dict:
                 j = it["with"]
                 if j not in journals:
                     journals[j] = Journal()
+                    for k, spec in enumerate(it.get("hooks", [])):
+                        journals[j].add_hook(make_hook(j, k, spec))
                     if look:
                         # a user hook that looks at the entry (public API) while the object is alive
                         journals[j].add_hook(lambda e: (e.obj, e.ref, e.operation, e.class_name, e.details))
@@ -1324,7 +1385,7 @@ def divergence_site(scn: list, a: dict, c: dict) -> dict | None:
 def site_matches(known_site: dict, site: dict | None) -> bool:
     if site is None:
         return False
-    return (site["op"] == known_site.get("op")
+    return ((known_site.get("op") is None or site["op"] == known_site.get("op"))
             and all(k in site["args"] for k in known_site.get("requires_args", []))
             and site["journaled"] == known_site.get("journaled")
             and site.get("deepest_frame") == known_site.get("deepest_frame")
@@ -1376,6 +1437,12 @@ def compare_plain_journal(a: dict, c: dict) -> list[str]:
     for r in c["oracle_entries"][:3]:
         bad.append(f"entries: completed {r['op']['op']} has {r['matching_entries']} entries in journal {r['journal']} "
                    f"(window {r['window'][:6]})")
+    for key, log in c["hook_calls"].items():
+        j = int(key.split(":")[0])
+        want = [r[:2] for r in c["entries"].get(j, [])]
+        if [tuple(r[:2]) for r in log] != [tuple(r) for r in want]:
+            bad.append(f"entries: hook {key} was called {len(log)} times for {len(want)} entries of its journal "
+                       "(or with other entries / in another order)")
     if c.get("alive"):
         bad.append(f"strong reference: {len(c['alive'])} of {c['n_entries']} entries still reach their object "
                    f"after the objects were dropped: {c['alive'][:4]}")
@@ -1486,7 +1553,7 @@ def _gen_op(rng) -> dict:
 
 
 def gen_scenario(rng, size: int = 24) -> list:
-    state = {"next": 1, "closed": []}
+    state = {"next": 1, "closed": [], "hooks": {}}
 
     def block(n, depth, active):
         items = []
@@ -1503,7 +1570,12 @@ def gen_scenario(rng, size: int = 24) -> list:
                     state["next"] += 1
                 body = block(rng.randrange(1, 7), depth + 1, active + [j])
                 state["closed"].append(j)
-                items.append({"with": j, "body": body})
+                if j not in state["hooks"]:
+                    state["hooks"][j] = [{"raise_on": None}] * rng.randrange(1, 3) if rng.random() < 0.35 else []
+                w = {"with": j, "body": body}
+                if state["hooks"][j]:
+                    w["hooks"] = state["hooks"][j]
+                items.append(w)
             elif u < 0.20:
                 items.append({"try": block(rng.randrange(1, 5), depth, active)})
             elif u < 0.23 and depth >= 1:
@@ -1574,10 +1646,12 @@ def scn_stats(scn) -> dict:
 # =========================================================================== model side (Coq case files)
 
 CASE_HEADER = """From Coq Require Import ZArith List Bool String.
-From IRV Require Import Base.Exn C20.Types Gen.C20Gen C20.Model.
+From IRV Require Import Base.Exn C20.Types Gen.C20Gen C20.Model C20.Hooks.
 Import ListNotations.
 Open Scope string_scope.
 Open Scope list_scope.
+Definition qh : hook := fun _ => None.
+Definition hk (s : string) : hook := fun e => if String.eqb (fst e) s then Some RuntimeError else None.
 Definition R := @Ret unit Z.
 Definition Iv := @Invoke unit Z.
 Definition Do := @PDo unit Z.
@@ -1585,12 +1659,14 @@ Definition Wi := @PWith unit Z.
 Definition Tr := @PTry unit Z.
 Definition Th := @PThrow unit Z.
 Definition Pe := @PRet unit Z.
-Definition case := (prog unit Z * (option exn * nat * bool) * list (nat * list (string * Z)))%type.
+Definition case := (prog unit Z * (option exn * nat * bool) * list (nat * list (string * Z))
+                    * (nat -> list hook) * list (nat * nat * list (string * Z)))%type.
 Definition agree (c : case) : bool :=
-  let '(p, (oexp, nres, restored_ok), obs) := c in
-  let '(st', _, rs, o, l) := run unit Z 0%Z p st0 tt in
+  let '(p, (oexp, nres, restored_ok), obs, hooks, hobs) := c in
+  let '(st', _, rs, o, l) := runH unit Z 0%Z hooks p st0 tt in
   Bool.eqb (pristine st') restored_ok && option_eqb exn_eqb o oexp && Nat.eqb (List.length rs) nres
-  && forallb (fun je => list_eqb entry_eqb (proj (fst je) l) (snd je)) obs.
+  && forallb (fun je => list_eqb entry_eqb (recs_of (fst je) l) (snd je)) obs
+  && forallb (fun x => let '(j, k, es) := x in list_eqb entry_eqb (calls_of j k l) es) hobs.
 """
 
 
@@ -1651,7 +1727,34 @@ def coq_case(scn, d) -> str:
     obs = clist(f"({j}%nat, {clist(f'({_cs(r[0])}, {cZ(r[3])})' for r in rows)})" for j, rows in sorted(d["entries"].items()))
     esc = "None" if d["escaped"] is None else f"(Some {d['escaped']})"
     restored_ok = "true" if not d["restore_bad"] and not d["cur_bad"] else "false"
-    return f"({coq_prog(scn, d['ops'])},\n   ({esc}, {len(d['ops'])}%nat, {restored_ok}), {obs})"
+    specs = scn_hooks(scn)
+    hooks = "(fun j => match j with " + " ".join(
+        f"| {j}%nat => {clist('qh' if sp.get('raise_on') is None else 'hk ' + _cs(sp['raise_on']) for sp in sps)}"
+        for j, sps in sorted(specs.items())) + " | _ => [] end)"
+    hobs = []
+    for j, sps in sorted(specs.items()):
+        for k in range(len(sps)):
+            # a journal that was never entered has no log at all (and no model events either)
+            log = d["hook_calls"].get(f"{j}:{k}", [])
+            hobs.append(f"({j}%nat, {k}%nat, {clist(f'({_cs(r[0])}, {cZ(r[2])})' for r in log)})")
+    return (f"({coq_prog(scn, d['ops'])},\n   ({esc}, {len(d['ops'])}%nat, {restored_ok}), {obs},\n   {hooks}, "
+            f"{clist(hobs)})")
+
+
+def scn_hooks(scn) -> dict:
+    """hook specs per journal id (the generator puts the same list on every `with` of a journal)"""
+    out = {}
+
+    def walk(items):
+        for it in items:
+            if "with" in it:
+                if it.get("hooks") and it["with"] not in out:
+                    out[it["with"]] = it["hooks"]
+                walk(it["body"])
+            elif "try" in it:
+                walk(it["try"])
+    walk(scn)
+    return out
 
 
 def correspondence(ck, cases: list) -> list[int]:
@@ -1698,6 +1801,67 @@ def probe_reentry(ck) -> None:
     else:
         ck.notes.append("observation (outside the property as read): re-entering the SAME Journal object while it is "
                         f"active leaves {len(bad)} class attributes wrapped after both exits (model and code agree)")
+
+
+RAISE_OPS = ["set_name", "init", "append", "extend", "set_graph", "set_attribute", "remove", "set_type",
+             "replace_all_uses_with", "insert_after", "append_io", "set_initializer", "resize_outputs", "sort",
+             "set_version", "set_io", "pop_io"]
+
+
+def gen_raising(rng) -> list:
+    """a scenario in which one journal has a hook that raises whenever an entry with a given operation is
+    recorded (plus possibly quiet hooks before/after it)"""
+    scn = gen_scenario(rng, rng.choice([6, 14, 24]))
+    withs = []
+
+    def walk(items):
+        for it in items:
+            if "with" in it:
+                withs.append(it)
+                walk(it["body"])
+            elif "try" in it:
+                walk(it["try"])
+    walk(scn)
+    if not withs:
+        scn = [{"with": 99, "body": scn}]
+        withs = [scn[0]]
+    # choose a journal and an operation it really records (one un-hooked journaled run tells)
+    rec = {j: sorted({r[0] for r in rows}) for j, rows in run_scenario(scn, "journal")["entries"].items() if rows}
+    if rec and rng.random() < 0.85:
+        j = rng.choice(sorted(rec))
+        op = rng.choice(rec[j])
+    else:
+        j = rng.choice(withs)["with"]
+        op = rng.choice(RAISE_OPS)
+    cur = next((w["hooks"] for w in withs if w["with"] == j and w.get("hooks")), [])
+    hooks = list(cur)
+    hooks.insert(rng.randrange(len(hooks) + 1), {"raise_on": op})
+    for w in withs:
+        if w["with"] == j:
+            w["hooks"] = hooks
+    return scn
+
+
+def probe_raising_hook(ck) -> bool:
+    """C20_raising_hook_refuted on the implementation: a hook that raises makes the journaled operation
+    differ from the plain one (record-first wrapper: the setter is never called)."""
+    ir = _mods()[0]
+    from onnx_ir.journaling import Journal
+    v = ir.Value(name="old")
+    j = Journal()
+
+    def boom(e):
+        raise C20HookError("probe")
+    j.add_hook(boom)
+    raised = None
+    with j:
+        try:
+            v.name = "new"
+        except C20HookError:
+            raised = True
+    interferes = bool(raised) and v.name == "old"
+    ck.hist("probes", "raising-hook:" + ("operation-aborted" if interferes else "operation-performed"))
+    return interferes
 
 
 # =========================================================================== run / search / replay
@@ -1848,7 +2012,15 @@ def run(ck) -> None:
     except Exception as e:  # noqa: BLE001
         force_restore()
         ck.broken("probe:reentry", repr(e))
-    n = 300 if not ck.thorough else 9000
+    try:
+        if not probe_raising_hook(ck):
+            ck.broken("correspondence:raising-hook",
+                      "model (C20_raising_hook_refuted) predicts that a raising hook aborts `v.name = ...` under a "
+                      "journal; the implementation performed the assignment")
+    except Exception as e:  # noqa: BLE001
+        force_restore()
+        ck.broken("probe:raising-hook", repr(e))
+    n = 200 if not ck.thorough else 6000
     corpus = _load_corpus()
     n_corpus = len(corpus)
     gc.collect()
@@ -1901,11 +2073,33 @@ def run(ck) -> None:
             # a robustness matter of display, outside C20's statement — counted, not reported
             ck.hist("probes", "display-raised:" + c["look_errors"])
         ck.hist("entries_total", "entries", c.get("n_entries", 0))
+        ck.hist("entries_total", "quiet-hook-calls", sum(len(v) for v in c["hook_calls"].values()))
         if st["depth"] >= 2 and nfail and (c["escaped"] or st["throws"] or any(o["prop"] and o["out"][0] == "raise" for o in d["ops"])):
             ck.nontriv(scn)
         if n_corpus <= i < n_corpus + 3:
             ck.sample({"scenario": scn[:6], "results": c["results"][:6],
                        "entries": {j: [r[:2] for r in rows[:8]] for j, rows in c["entries"].items()}})
+    # raising hooks: the model (Hooks.v: runH) predicts exactly what the implementation does — which entry is the
+    # last one, which hooks were still called, that the original is not run under a record-first wrapper, that
+    # the hook's exception is the operation's exception, and that the classes are restored all the same
+    nr = 50 if not ck.thorough else 1200
+    for i in range(nr):
+        scn = gen_raising(ck.rng)
+        d = run_scenario(scn, "traced", x)
+        ck.count()
+        fired = sum(1 for r in d["results"] if r == ("raise", "C20HookError"))
+        ck.hist("raising_hook_stream", "hook-raised" if fired else "hook-never-triggered")
+
+        def aborted(forest):
+            return sum(int(bool(nd.get("aborted"))) + aborted(nd["ch"]) for nd in forest)
+        ck.hist("raising_hook_stream", "calls-aborted-before-the-original", sum(aborted(o["forest"]) for o in d["ops"]))
+        bad = [f"not restored after journal {r['journal']} ({r['exit']} exit, raising hook): {r['attributes']}"
+               for r in d["restore_bad"]] + ["current journal: " + r for r in d["cur_bad"]]
+        if bad:
+            failures.append((scn, bad, None))
+        if fired:
+            ck.nontriv(("raising-hook", scn))
+        cases.append((json.dumps(scn), coq_case(scn, d)))
     ck.coverage["traces_validated_against_impl"] = len(cases)
     try:
         mism = correspondence(ck, cases)
